@@ -714,6 +714,46 @@ func (n *node) handoverFlood(count int) string {
 	return "alive"
 }
 
+// runningPoolFlood: against a blockchain v0 reactor whose pool IS running (fast sync on): `rounds`
+// times a fresh peer known to the switch sends 2-5 unsolicited far-height BlockResponses back to
+// back (the pool reports each while holding its lock; poolRoutine drains the reports and drops the
+// peer, which needs the same lock); after every round an honest peer's message must be handled and
+// RemovePeer must return.
+func (n *node) runningPoolFlood(rounds int) string {
+	if n.kind != "blockchain" {
+		return "bad-op"
+	}
+	far := mustMarshal(&bcproto.Message{Sum: &bcproto.Message_BlockResponse{BlockResponse: &bcproto.BlockResponse{Block: n.farBlock(5000)}}})
+	for r := 0; r < rounds; r++ {
+		hostile := p2pmock.NewPeer(net.IPv4(10, 5, byte(r>>8), byte(r)))
+		p2p.AddPeerToSwitchPeerSet(n.sw, hostile)
+		k := 2 + r%4
+		if !within(5*time.Second, func() {
+			for i := 0; i < k; i++ {
+				func() {
+					defer func() { recover() }() //nolint
+					n.reactor.Receive(0x40, hostile, far)
+				}()
+			}
+		}) {
+			n.stuck = true
+			return fmt.Sprintf("WEDGED-running-pool:hostile-receive-does-not-return(round %d)", r)
+		}
+		for i, f := range n.probes {
+			if !within(5*time.Second, f) {
+				n.stuck = true
+				return fmt.Sprintf("WEDGED-running-pool:honest-message-%d-not-handled(round %d)", i, r)
+			}
+		}
+		if !within(5*time.Second, func() { n.reactor.RemovePeer(n.pPeer, "probe") }) {
+			n.stuck = true
+			return fmt.Sprintf("WEDGED-running-pool:RemovePeer-does-not-return(round %d)", r)
+		}
+		hostile.Stop() //nolint
+	}
+	return "alive"
+}
+
 func (n *node) health() string {
 	if n.cs == nil {
 		return "healthy"
@@ -784,6 +824,8 @@ func execReactor(c core.Case) []string {
 			out = append(out, n.flood(atoi(m["peers"]), atoi(m["per"]), m["mix"]))
 		case "hflood":
 			out = append(out, n.handoverFlood(atoi(m["n"])))
+		case "rflood":
+			out = append(out, n.runningPoolFlood(atoi(m["rounds"])))
 		default:
 			out = append(out, "bad-op")
 		}
@@ -835,6 +877,9 @@ func oracleReactor(c core.Case, out []string) []core.Finding {
 			}
 			fs = append(fs, core.Finding{Fingerprint: kind + ".reactor.wedged-after-" + cls,
 				Desc: fmt.Sprintf("%s reactor: after the %s message (%s) the node no longer answers its liveness probe (state readable, well-formed message of another peer handled, each within 5 s): %s", kind, m["kind"], trunc(op, 160), o)})
+		case strings.HasPrefix(o, "WEDGED-running-pool"):
+			fs = append(fs, core.Finding{Fingerprint: "blockchain.v0.Receive.unsolicited-blocks-wedge-running-pool",
+				Desc: "blockchain v0 reactor with a RUNNING pool: back-to-back unsolicited far-height BlockResponses, then " + full})
 		case strings.HasPrefix(o, "WEDGED-handover-flood"):
 			pre := map[string]string{"blockchain-ho": "blockchain.v0", "blockchain": "blockchain.v0", "statesync": "statesync", "pex": "p2p.pex", "pexseed": "p2p.pex"}[kind]
 			fs = append(fs, core.Finding{Fingerprint: pre + ".Receive.flood-after-handover-wedges-reactor",
@@ -1536,6 +1581,9 @@ func genReactor(r *rand.Rand, emit func(core.Case), tier string) {
 		emit(core.Case{Kind: "reactor", Ops: []string{"reactor kind=" + k,
 			fmt.Sprintf("hflood n=%d expect=alive", 1150+r.Intn(200)), "health"}})
 		note("reactor-" + k + "-handover-flood")
+	}
+	for i := 0; i < 2; i++ {
+		emit(core.Case{Kind: "reactor", Ops: []string{"reactor kind=blockchain", fmt.Sprintf("rflood rounds=%d expect=alive", 20+r.Intn(10)), "health"}})
 	}
 	for _, k := range []string{"mempool", "evidence"} {
 		emit(core.Case{Kind: "reactor", Ops: []string{"reactor kind=" + k,
